@@ -1328,6 +1328,31 @@ theorem M_rmPending (s s' : App) (c : CSet) (sg : Signer) (t : Option Nat) (m : 
       exact ⟨m.pend.ops.sublist ((removeFirst_sublist op s.pending).map _), m.pend.keys.sublist ((removeFirst_sublist op s.pending).map _),
         fun q hq => m.pend.fresh q (mem_removeFirst op s.pending q hq)⟩
 
+/-- **a successful UpdateStakingParams preserves `M`**: only the parameters change, and a valid parameter set has a
+    positive unbonding time; whether the index still fits under the new `MaxValidators` is judged at the EndBlocker
+    (`Fits.cap`) -/
+theorem M_params (s s' : App) (c : CSet) (sg : Signer) (pa : ParamArgs) (m : M s c) (h : s.paramsMsg sg pa = .ok s') : M s' c := by
+  unfold paramsMsg at h
+  split at h
+  · cases h
+  · split at h
+    · cases h
+    · rename_i hv
+      injection h with h
+      subst h
+      have hu : pa.unbond > 0 := by
+        have hv' : paramsValid pa = true := by simpa using hv
+        unfold paramsValid at hv'
+        simp only [Bool.and_eq_true, decide_eq_true_eq] at hv'
+        exact hv'.1.1.1.1.1.1
+      exact {
+        sorted := m.sorted, keys := m.keys, live := m.live, nonempty := m.nonempty, ubq := m.ubq
+        pend := ⟨m.pend.ops, m.pend.keys, m.pend.fresh⟩
+        last := m.last, lastOnly := m.lastOnly, lastSorted := m.lastSorted, cometCur := m.cometCur
+        cometKnown := m.cometKnown, cSorted := m.cSorted, cNonneg := m.cNonneg, idxEx := m.idxEx, idxNodup := m.idxNodup
+        occ1 := m.occ1, occ2 := m.occ2, unbond := hu, infos := m.infos, cons := m.cons
+        updSorted := m.updSorted, updCur := m.updCur }
+
 /-! ### transactions, blocks, histories of power adjustments -/
 
 /-- a transaction of a power-adjustment history: either it leaves the state as it was (any rejected transaction — by
@@ -1338,11 +1363,11 @@ def QuietTx (s : App) (incs : List (Signer × Nat)) (tx : Tx) : Prop :=
   (runTx genEnv s incs tx).2.1 = s ∨
   (∃ op p u, tx.signer = .admin ∧ tx.msgs = [.setPower (some op) p u] ∧
     ((runTx genEnv s incs tx).1 = .ok → s.pendingFind op = none → op ∉ s.updated ∧ (p / PR, op) ∉ s.index)) ∨
-  (∃ a, tx.msgs = [.create a]) ∨ (∃ t, tx.msgs = [.rmPending t])
+  (∃ a, tx.msgs = [.create a]) ∨ (∃ t, tx.msgs = [.rmPending t]) ∨ (∃ pa, tx.msgs = [.params pa])
 
 theorem runTx_M (s : App) (c : CSet) (incs : List (Signer × Nat)) (tx : Tx) (m : M s c) (q : QuietTx s incs tx) :
     M (runTx genEnv s incs tx).2.1 c := by
-  rcases q with hsame | ⟨op, p, u, hsg, hmsgs, hq⟩ | ⟨a, hmsgs⟩ | ⟨tg, hmsgs⟩
+  rcases q with hsame | ⟨op, p, u, hsg, hmsgs, hq⟩ | ⟨a, hmsgs⟩ | ⟨tg, hmsgs⟩ | ⟨pa, hmsgs⟩
   · rw [hsame]; exact m
   rotate_left
   · -- CreateValidator
@@ -1371,6 +1396,19 @@ theorem runTx_M (s : App) (c : CSet) (incs : List (Signer × Nat)) (tx : Tx) (m 
         cases hr : s.rmPendingMsg tx.signer tg with
         | error e => simp only [liftE]; exact m
         | ok s' => simp only [liftE]; exact M_rmPending s s' c tx.signer tg m hr
+  · -- UpdateStakingParams
+    unfold runTx
+    split
+    · exact m
+    · cases ha : Ante.run genEnv.ante genEnv.limiter s.height tx.msgs with
+      | some e => simp only; exact m
+      | none =>
+        simp only
+        rw [hmsgs]
+        simp only [handleList, handle]
+        cases hr : s.paramsMsg tx.signer pa with
+        | error e => simp only [liftE]; exact m
+        | ok s' => simp only [liftE]; exact M_params s s' c tx.signer pa m hr
   unfold runTx at hq ⊢
   split
   · exact m
@@ -1791,7 +1829,9 @@ theorem quietTx_of_B (s : App) (incs : List (Signer × Nat)) (tx : Tx) (h : quie
   · rename_i a hm
     right; left; exact ⟨a, hm⟩
   · rename_i tg hm
-    right; right; exact ⟨tg, hm⟩
+    right; right; left; exact ⟨tg, hm⟩
+  · rename_i pa hm
+    right; right; right; exact ⟨pa, hm⟩
   · cases h
 
 theorem quietTxs_of_B : ∀ (txs : List Tx) (s : App) (incs : List (Signer × Nat)), quietTxsB txs s incs = true → QuietTxs txs s incs
